@@ -108,3 +108,42 @@ def date_of_serial(s):
 
 def dt_close(a, b, ms=1.0):
     return isinstance(a, datetime.datetime) and abs((a - b).total_seconds()) * 1000.0 <= ms + 1e-6
+
+
+class Raised(object):
+    """what a guarded library call returns when it raised: equal to nothing, so every oracle that follows fails on it"""
+
+    def __init__(self, exc):
+        self.exc = exc
+
+    def __repr__(self):
+        return 'RAISED(%s: %s)' % (type(self.exc).__name__, str(self.exc)[:80])
+
+    def __eq__(self, other):
+        return False
+
+    def __ne__(self, other):
+        return True
+
+    __hash__ = object.__hash__
+
+
+class Guarded(object):
+    """proxy of a library module for checks that call its functions directly: an exception is a violation of the property whose
+    function it is (recorded under <prefix>/<function>:raises:<type>), never a crash of the harness"""
+
+    def __init__(self, mod, rec, prefix):
+        self._mod, self._rec, self._prefix = mod, rec, prefix
+
+    def __getattr__(self, name):
+        fn = getattr(self._mod, name)
+        if not callable(fn) or isinstance(fn, type):
+            return fn
+
+        def call(*a, **k):
+            try:
+                return fn(*a, **k)
+            except Exception as e:
+                self._rec.violation('%s/%s:raises:%s' % (self._prefix, name, type(e).__name__), arguments=a, error=repr(e)[:200])
+                return Raised(e)
+        return call
